@@ -1,6 +1,7 @@
 package main
 
 import (
+	"sync"
 	"encoding/binary"
 	"strconv"
 
@@ -92,6 +93,32 @@ func c20(w []string) string {
 		z := atoi(w[1])
 		u := c20ug.EncodeInt64(z)
 		return "EIR " + u2s(u) + " " + strconv.FormatInt(c20ug.DecodeUid(u), 10)
+	case "DBC": // database-form round trips from several goroutines at once (the generator is one shared value in the server)
+		n, base := int(atou(w[1])), atou(w[2])
+		bad := make(chan uint64, 64)
+		var wg sync.WaitGroup
+		for g := 0; g < 8; g++ {
+			wg.Add(1)
+			go func(g int) {
+				defer wg.Done()
+				for i := 0; i < n; i++ {
+					u := types.Uid(base + uint64(g)*0x9e3779b97f4a7c15 + uint64(i)*0x100000001b3)
+					if c20ug.EncodeInt64(c20ug.DecodeUid(u)) != u {
+						select {
+						case bad <- uint64(u):
+						default:
+						}
+						return
+					}
+				}
+			}(g)
+		}
+		wg.Wait()
+		close(bad)
+		if u, ok := <-bad; ok {
+			return "DBC bad " + strconv.FormatUint(u, 10)
+		}
+		return "DBC ok"
 	case "XE", "XD": // the external cipher on one 8-byte block (oracle for the model's section variable)
 		src := unhex(w[1])
 		dst := make([]byte, 8)
